@@ -7,9 +7,11 @@ package fsnotify
 // contains no code; it is only compiled with -tags verif.
 
 //@ func (o Op) Has(h Op) (r bool)
+//@   opt replay
 //@   ensures r <==> (o & h != 0)              [C16] "Has is true exactly when the two operation sets intersect"
 
 //@ func (e Event) Has(op Op) (r bool)
+//@   opt replay
 //@   ensures r <==> (e.Op & op != 0)          [C16] "Event.Has agrees with Op.Has"
 
 // Op.String: the names of the defined operations present, each once, joined by
@@ -24,6 +26,7 @@ package fsnotify
 
 //@ func (o Op) String() (s string)
 //@   opt strings
+//@   opt replay
 //@   opt split = o:9
 //@   ensures s == opString(o)                                   [C16] "names exactly the defined operations present, joined by | in fixed order; [no events] when none"
 //@   ensures (o & Create != 0) <==> opMember(s, "CREATE")       [C16] "distinct sets render differently: CREATE is decodable"
@@ -37,6 +40,7 @@ package fsnotify
 //@   ensures (o & Chmod != 0) <==> opMember(s, "CHMOD")         [C16] "distinct sets render differently: CHMOD is decodable"
 
 //@ func (e Event) String() (s string)
+//@   opt replay
 //@   ensures e.renamedFrom == "" ==> s == sprintf("%-13s %q", opString(e.Op), e.Name)                          [C16] "shows the operation text and the quoted name"
 //@   ensures e.renamedFrom != "" ==> s == sprintf("%-13s %q ← %q", opString(e.Op), e.Name, e.renamedFrom)      [C16 C11] "for the new name of a rename, also the quoted old name, in that order"
 
